@@ -144,8 +144,8 @@ structure CliExpect where
   tlscmds : String    -- "*" = any subset of CAPABILITY
   wire : String       -- what the client may write after the STARTTLS command: "tls" records only, or "*" (no switch: plaintext goes on)
 
-def cliExpect (tag : Bytes) (segs : List Bytes) (hs : Bool) (tlsScript : Bytes) : CliExpect × Bool :=
-  let run := runClient .drain tag segs hs
+def cliExpect (k : Ctor) (tag : Bytes) (segs : List Bytes) (hs : Bool) (tlsScript : Bytes) : CliExpect × Bool :=
+  let run := runClient .drain k tag segs hs
   let evs := run.r.evs.map (·.2)
   let unmod := evs.contains .unmodelled
   let usable := run.result == .client && run.hsOK
@@ -163,17 +163,28 @@ def cliExpect (tag : Bytes) (segs : List Bytes) (hs : Bool) (tlsScript : Bytes) 
 def showExpect (e : CliExpect) : String :=
   joinWith "|" [e.result, e.delivered, e.caps, e.noop, "STARTTLS", e.wire, e.tlscmds, "ok"]
 
-def handleCli (id : String) (f : List String) : String :=
+def handleCli (k : Ctor) (id : String) (f : List String) : String :=
   match f with
-  | [greet, preH, reply, sufH, cutsS, hsS, scriptH, tagH, result, delivered, caps, noop, plaincmds, cafterH, tlscmds, end_] =>
+  | [greetF, preH, reply, sufH, cutsS, hsS, scriptH, tagH, result, delivered, caps, noop, plaincmds, cafterH, tlscmds, end_] =>
+    -- "greeting.e": the greeting was written before the STARTTLS command was read, as a segment of its own
+    let early := greetF.endsWith ".e"
+    let greet := if early then (greetF.dropEnd 2).toString else greetF
     match hexDecode? preH, hexDecode? sufH, parseCuts? cutsS, hexDecode? scriptH, hexDecode? tagH, hexDecode? cafterH with
     | some pre, some suffix, some cuts, some script, some tag, some cafter =>
-      let stream := greetLine greet ++ pre ++ tag ++ strBytes (" " ++ reply ++ " begin\r\n") ++ suffix
-      let (e, unmod) := cliExpect tag (segments cuts stream) (hsS == "1") script
+      if tag == strBytes "?" then
+        -- the client never sent STARTTLS: only possible when an early BYE made it give up first
+        let ok := early && greet == "bye" && result == "error" && delivered == "-"
+        let orc := if result == "client" then "fail:bye-greeting-accepted" else "ok"
+        s!"{id}\t{boolStr ok}\t{orc}\terror|-|-|-|-|*|-|ok"
+      else
+      let rest := pre ++ tag ++ strBytes (" " ++ reply ++ " begin\r\n") ++ suffix
+      let segs := if early then greetLine greet :: segments cuts rest else segments cuts (greetLine greet ++ rest)
+      let (e, unmod) := cliExpect k tag segs (hsS == "1") script
+      let plainOK := plaincmds == "STARTTLS" || (early && plaincmds == "CAPABILITY,STARTTLS")
       let resOK := e.result == result || (e.result == "either" && (result == "client" || result == "error"))
       let tlsOK := e.tlscmds == tlscmds || (e.tlscmds == "*" && (tlscmds == "-" || tlscmds == "CAPABILITY"))
       let agree := !unmod && resOK && e.delivered == delivered && e.caps == caps && e.noop == noop &&
-        plaincmds == "STARTTLS" && (e.wire == "*" || tlsFramedPrefix cafter) && tlsOK && (end_ == "ok" || end_ == "hang13")
+        plainOK && (e.wire == "*" || tlsFramedPrefix cafter) && tlsOK && (end_ == "ok" || end_ == "hang13")
       let obs : CliObs := {
         greet := greet, reply := reply, pre := pre, suffix := suffix, tlsScript := script,
         result := if result == "client" then .client else .error,
@@ -198,7 +209,8 @@ def handleCli (id : String) (f : List String) : String :=
 def handle (f : List String) : String :=
   match f with
   | id :: "srv" :: rest => handleSrv id rest
-  | id :: "cli" :: rest => handleCli id rest
+  | id :: "cli" :: rest => handleCli .newStartTLS id rest
+  | id :: "dial" :: rest => handleCli .dialStartTLS id rest
   | id :: _ => s!"{id}\t0\tfail:bad-line\t-"
   | [] => "?\t0\tfail:bad-line\t-"
 
